@@ -55,7 +55,7 @@ func runC18(c *an.Ctx) {
 		return
 	}
 	c.FuncsAnalysed[handler] = true
-	off := "tx.IsRuleEngineOff() == true"
+	off := ".IsRuleEngineOff() == true" // whatever the transaction value is called (a captured variable, or the call creating it)
 	// ---- R1
 	n := 0
 	an.Instrs(handler, func(in ssa.Instruction) {
@@ -115,6 +115,8 @@ func runC18(c *an.Ctx) {
 		var body *ssa.Function
 		if mc, ok := def.Call.Value.(*ssa.MakeClosure); ok {
 			body, _ = mc.Fn.(*ssa.Function)
+		} else if sc := def.Call.StaticCallee(); sc != nil && len(sc.Blocks) > 0 {
+			body = sc // defer finishTransaction(tx): a named private function instead of a closure
 		}
 		okL, okC := false, false
 		if body != nil {
@@ -509,11 +511,7 @@ func runC18(c *an.Ctx) {
 			c.Bad("R5", "processRequest: splice after buffering", in.Pos(), "no branch for 'body buffered without interruption or error' found")
 			return
 		}
-		errIdx := an.ErrorIndex(pr.Signature)
-		w := an.FindPath(an.PathQuery{Fn: pr, StartBlock: start, Target: func(x ssa.Instruction) bool {
-			r, ok := x.(*ssa.Return)
-			return ok && an.ReturnMayBeNilError(r, errIdx)
-		}, Stop: func(x ssa.Instruction) bool {
+		isSplice := func(x ssa.Instruction) bool {
 			st, ok := x.(*ssa.Store)
 			if !ok {
 				return false
@@ -523,6 +521,35 @@ func runC18(c *an.Ctx) {
 				return false
 			}
 			return splicesRemainder(st.Val, 0)
+		}
+		errIdx := an.ErrorIndex(pr.Signature)
+		w := an.FindPath(an.PathQuery{Fn: pr, StartBlock: start, Target: func(x ssa.Instruction) bool {
+			r, ok := x.(*ssa.Return)
+			return ok && an.ReturnMayBeNilError(r, errIdx)
+		}, Stop: func(x ssa.Instruction) bool {
+			if isSplice(x) {
+				return true
+			}
+			// the splice moved into a private helper of the package (spliceRequestBody(tx, req)): it counts when
+			// every successful return of the helper has passed it
+			if cc := an.CallOf(x); cc != nil && cc.StaticCallee() != nil {
+				h := cc.StaticCallee()
+				if h != pr && relPkg(h) == "http" && len(h.Blocks) > 0 && !token.IsExported(h.Name()) {
+					hErr := an.ErrorIndex(h.Signature)
+					w := an.FindPath(an.PathQuery{Fn: h, Stop: isSplice, Target: func(y ssa.Instruction) bool {
+						r, ok := y.(*ssa.Return)
+						return ok && (hErr < 0 || an.ReturnMayBeNilError(r, hErr))
+					}})
+					has := false
+					an.Instrs(h, func(y ssa.Instruction) {
+						if isSplice(y) {
+							has = true
+						}
+					})
+					return has && w == nil
+				}
+			}
+			return false
 		}})
 		if w != nil {
 			c.Bad("R5", "processRequest: splice after buffering", in.Pos(), "after the request body was buffered for inspection, processRequest can succeed without replacing req.Body by (buffered bytes + unread remainder): the application would read a truncated or empty body", c.P.TrailString(w)...)
